@@ -18,9 +18,13 @@ for seed in sys.argv[1:]:
         print(seed, "not caught / no replay"); continue
     paths.sort(key=lambda p: os.path.getsize(os.path.join(ROOT, p)))
     done = False
-    for p in paths[:4]:
+    for p in paths[:6]:
         r = subprocess.run(["./check", prop, "--replay", p], cwd=ROOT, capture_output=True, text=True)
-        if r.returncode == 0 and "replay passed" in r.stdout:
+        if not (r.returncode == 0 and "replay passed" in r.stdout):
+            continue
+        # ... and it must FAIL with the seeded change applied to the current tree
+        m = subprocess.run(["tools/with_mutant.sh", f"seeded/{seed}/patch.diff", "--", "./check", prop, "--replay", p], cwd=ROOT, capture_output=True, text=True)
+        if m.returncode == 1 and "VIOLATION" in m.stdout:
             rec = json.load(open(os.path.join(ROOT, p)))
             d = os.path.join(ROOT, "corpus", prop)
             os.makedirs(d, exist_ok=True)
